@@ -4,6 +4,9 @@ import PhysisModel.Model.Shpk
 import PhysisModel.Spec.Shpk
 import PhysisModel.Spec.ShpkText
 import PhysisModel.Spec.Crc32
+import PhysisModel.Model.Mtrl
+import PhysisModel.Spec.Mtrl
+import PhysisModel.Spec.MtrlText
 /-!
 Driver of C14.  Ops:
 
@@ -141,6 +144,117 @@ def handleShpk (fs : List String) : String :=
       answer ("shpk " ++ Bytes.toHex file ++ " " ++ showNatList (qs.map (·.toNat))) expected [] (some model)
     | _, _ => bad
 
+/-! ### materials -/
+
+namespace M
+open Physis.Spec.Mtrl
+
+/-- big-endian hex words (`3c00` = 1.0) -/
+def pWords (s : String) : Option (List UInt16) := do
+  let bs ← Bytes.ofHex s
+  let rec go : Bytes → Option (List UInt16)
+    | [] => some []
+    | [_] => none
+    | a :: b :: r => (go r).map ((a.toUInt16 <<< 8 ||| b.toUInt16) :: ·)
+  go bs
+
+def pBits (s : String) (n : Nat) : Option (List Bool) :=
+  let cs := s.toList
+  if cs.length = n && cs.all (fun c => c == '0' || c == '1') then some (cs.map (· == '1')) else none
+
+def pColorSet (s : String) : Option ColorSetF :=
+  match s.splitOn ":" with
+  | [a, b] => do pure { nameOffset := ← pU16 a, index := ← pU16 b }
+  | _ => none
+
+def pColorTable (s : String) : Option ColorTableF :=
+  if s == "none" then some .absent
+  else if s == "opaque" then some .opaque
+  else match s.splitOn ":" with
+    | ["L", rows] => (splitList "/" rows).mapM pWords |>.map .legacy
+    | ["D", rows] => (splitList "/" rows).mapM pWords |>.map .dawntrail
+    | _ => none
+
+def pLegacyDye (s : String) : Option LegacyColorDyeTableRow :=
+  match s.splitOn "." with
+  | [t, bits] => do
+    match ← pBits bits 5 with
+    | [a, b, c, d, e] => pure { template := ← pU16 t, diffuse := a, specular := b, emissive := c, gloss := d,
+                                specularStrength := e }
+    | _ => none
+  | _ => none
+
+def pDawntrailDye (s : String) : Option DawntrailDyeF :=
+  match s.splitOn "." with
+  | [t, ch, bits, spare] => do
+    match ← pBits bits 12 with
+    | [a, b, c, d, e, f, g, h, i, j, k, l] =>
+      pure { row := { template := ← pU16 t, channel := ← pU8 ch, diffuse := a, specular := b, emissive := c
+                      scalar3 := d, metalness := e, roughness := f, sheenRate := g, sheenTintRate := h
+                      sheenAperture := i, anisotropy := j, sphereMapIndex := k, sphereMapMask := l }
+             spare := ← pU32 spare }
+    | _ => none
+  | _ => none
+
+def pDyeTable (s : String) : Option DyeTableF :=
+  if s == "none" then some .absent
+  else if s == "opaque" then some .opaque
+  else match s.splitOn ":" with
+    | ["L", rows] => (splitList "," rows).mapM pLegacyDye |>.map .legacy
+    | ["D", rows] => (splitList "," rows).mapM pDawntrailDye |>.map .dawntrail
+    | _ => none
+
+def pShaderKey (s : String) : Option ShaderKey :=
+  match s.splitOn ":" with
+  | [a, b] => do pure { category := ← pU32 a, value := ← pU32 b }
+  | _ => none
+
+def pConstant (s : String) : Option ConstantF :=
+  match s.splitOn ":" with
+  | [a, b, c] => do pure { constantId := ← pU32 a, valueOffset := ← pU16 b, valueSize := ← pU16 c }
+  | _ => none
+
+def pSampler (s : String) : Option Sampler :=
+  match s.splitOn ":" with
+  | [u, fl, a, b, c, d] => do
+    pure { textureUsage := ← u.toNat?, flags := ← pU32 fl, textureIndex := ← pU8 a, unknown1 := ← pU8 b
+           unknown2 := ← pU8 c, unknown3 := ← pU8 d }
+  | _ => none
+
+def pMaterial (m : List (String × String)) : Option MaterialF := do
+  pure {
+    version := ← pU32 (← get m "ver"), fileSize := ← pU16 (← get m "fsz"), dataSetSize := ← pU16 (← get m "dss")
+    textures := ← (splitList ";" (← get m "tex")).mapM (fun t => if t == "e" then some [] else Bytes.ofHex t)
+    heapRest := ← Bytes.ofHex (← get m "rest")
+    shaderPackageNameOffset := ← pU16 (← get m "spo")
+    textureOffsets := ← pU32s (← get m "offs")
+    uvSets := ← (splitList "," (← get m "uv")).mapM pColorSet
+    colorSets := ← (splitList "," (← get m "cs")).mapM pColorSet
+    tableFlags := ← pU32 (← get m "tf"), additionalRest := ← Bytes.ofHex (← get m "ar")
+    colorTable := ← pColorTable (← get m "ct"), dyeTable := ← pDyeTable (← get m "dye")
+    shaderValueListSize := ← pU16 (← get m "svs"), materialFlags := ← pU32 (← get m "mf")
+    shaderKeys := ← (splitList "," (← get m "keys")).mapM pShaderKey
+    constants := ← (splitList "," (← get m "const")).mapM pConstant
+    samplers := ← (splitList "," (← get m "samp")).mapM pSampler
+    shaderValues := ← pU32s (← get m "vals"), trailing := ← Bytes.ofHex (← get m "trail") }
+
+def handleMtrl (fs : List String) : String :=
+  match kvs fs with
+  | none => bad
+  | some m =>
+    match pMaterial m with
+    | some f =>
+      if !WF f then bad else
+      let file := encode f
+      let model := match Mtrl.fromExisting file with
+        | .ok p => render p
+        | .error .fail => "none"
+        | .error .panic => "panic"
+      answer ("mtrl " ++ Bytes.toHex file) (render (view f)) [] (some model)
+    | none => bad
+
+end M
+
 /-- one case line in, one answer line out (see `Base/Proto.lean`) -/
 def handle (line : String) : String :=
   match fields line with
@@ -164,6 +278,7 @@ def handle (line : String) : String :=
     | some hs => answer "=" (showNatList (hs.map fun h => (halfToF32 h).toNat))
     | none => bad
   | "shpk" :: rest => handleShpk rest
+  | "mtrl" :: rest => M.handleMtrl rest
   | _ => bad
 
 end Physis.Driver.C14
